@@ -6,8 +6,15 @@
 //!
 //! Keys are printable ASCII and non-ASCII characters of 2, 3 and 4 bytes; no control characters
 //! (typed ahead while the terminal is in cooked mode they would be interpreted by the line
-//! discipline: CR→LF, erase, signals), so Enter is not covered here.  Programs read at most as
-//! many bytes as were typed (a further read would wait for the keyboard for ever).
+//! discipline: CR→LF, erase, signals).  Programs read at most as many bytes as were typed (a
+//! further read would wait for the keyboard for ever).
+//!
+//! Control keys (`K03`, a handful of fixed sessions on shard 0): Enter, Backspace, Tab, Ctrl+A,
+//! Ctrl+J, Ctrl+Space, Ctrl+C between ordinary keys, each key typed only while the terminal is in
+//! raw mode (lace waiting inside `read_key`): the harness polls the pty's `ICANON` flag before every
+//! key and, after a key that should deliver a value, waits for the program's output of it (the
+//! programs flush with OUT after every read).  Expected: the model of `term.rs` on the events
+//! crossterm decodes from these bytes, and the pipe path on `pipeBytes` of those events.
 use crate::cap::hex;
 use crate::cli::{lace_bin, ProcOut, TmpDir};
 use crate::prng::Rng;
@@ -117,14 +124,187 @@ fn program(rng: &mut Rng, nbytes: usize) -> Vec<u16> {
     w
 }
 
+#[repr(C)]
+struct Termios {
+    iflag: u32,
+    oflag: u32,
+    cflag: u32,
+    lflag: u32,
+    line: u8,
+    cc: [u8; 32],
+    ispeed: u32,
+    ospeed: u32,
+}
+
+extern "C" {
+    fn tcgetattr(fd: i32, t: *mut Termios) -> i32;
+}
+
+const ICANON: u32 = 0o2;
+
+/// Is the terminal behind `master` in raw mode (as far as the line discipline goes)?
+fn is_raw(master: &File) -> bool {
+    use std::os::fd::AsRawFd;
+    let mut t = Termios { iflag: 0, oflag: 0, cflag: 0, lflag: ICANON, line: 0, cc: [0; 32], ispeed: 0, ospeed: 0 };
+    let rc = unsafe { tcgetattr(master.as_raw_fd(), &mut t) };
+    rc == 0 && t.lflag & ICANON == 0
+}
+
+/// Does this key make a read return (used for pacing only: a wrong answer costs time, nothing else)?
+fn key_delivers(k: char) -> bool {
+    k == '\r' || (k >= ' ' && k != '\x7f')
+}
+
+/// Run `lace <args>` in `dir` with a pty on stdin; every key is typed while the terminal is in raw
+/// mode, and after a delivering key the harness waits until standard output has grown.
+pub fn spawn_tty_synced(dir: &std::path::Path, args: &[&str], keys: &str, timeout_ms: u64) -> ProcOut {
+    let (mut master, slave) = unsafe {
+        let (mut m, mut s) = (0i32, 0i32);
+        let rc = openpty(&mut m, &mut s, std::ptr::null_mut(), std::ptr::null(), std::ptr::null());
+        assert!(rc == 0, "openpty failed");
+        (File::from_raw_fd(m), File::from_raw_fd(s))
+    };
+    let mut child = Command::new(lace_bin())
+        .args(args)
+        .current_dir(dir)
+        .env("NO_COLOR", "1")
+        .stdin(Stdio::from(slave))
+        .stdout(Stdio::piped())
+        .stderr(Stdio::piped())
+        .spawn()
+        .expect("spawn lace");
+    let out = collect(child.stdout.take().unwrap());
+    let err = collect(child.stderr.take().unwrap());
+    let start = Instant::now();
+    let expired = |start: &Instant| start.elapsed() > Duration::from_millis(timeout_ms);
+    let mut exited = false;
+    'keys: for k in keys.chars() {
+        // wait for raw mode
+        loop {
+            if let Ok(Some(_)) = child.try_wait() {
+                exited = true;
+                break 'keys;
+            }
+            if is_raw(&master) || expired(&start) {
+                break;
+            }
+            std::thread::sleep(Duration::from_millis(1));
+        }
+        let before = out.lock().unwrap().len();
+        let mut b = [0u8; 4];
+        let _ = master.write_all(k.encode_utf8(&mut b).as_bytes());
+        let _ = master.flush();
+        if key_delivers(k) {
+            // the value is printed and flushed by the program before it reads again
+            let t0 = Instant::now();
+            while out.lock().unwrap().len() == before && t0.elapsed() < Duration::from_millis(3000) {
+                if let Ok(Some(_)) = child.try_wait() {
+                    exited = true;
+                    break 'keys;
+                }
+                std::thread::sleep(Duration::from_millis(1));
+            }
+        }
+    }
+    let mut status = None;
+    if !exited {
+        loop {
+            match child.try_wait() {
+                Ok(Some(_)) => break,
+                Ok(None) => {
+                    if expired(&start) {
+                        let _ = child.kill();
+                        break;
+                    }
+                    std::thread::sleep(Duration::from_millis(2));
+                }
+                Err(_) => break,
+            }
+        }
+    }
+    let timed_out = !exited && expired(&start);
+    if let Ok(st) = child.wait() {
+        if !timed_out {
+            status = st.code();
+        }
+    }
+    std::thread::sleep(Duration::from_millis(20)); // let the collectors drain the pipes
+    drop(master);
+    let stdout = out.lock().unwrap().clone();
+    let stderr = err.lock().unwrap().clone();
+    ProcOut { status, stdout, stderr }
+}
+
+/// `K03`: per read GETC|IN, PUTN, OUT (OUT flushes standard output).
+fn k03_words(reads: &[bool]) -> Vec<u16> {
+    let mut w = Vec::new();
+    for &is_in in reads {
+        w.push(if is_in { 0xF023 } else { 0xF020 });
+        w.push(0xF026);
+        w.push(0xF021);
+    }
+    w.push(0xF025);
+    w
+}
+
+fn k03_request(keys: &str, words: &[u16]) -> String {
+    let mut s = format!("K03 1 {:x} {} {:x}", 100_000, hex(keys.as_bytes()), words.len());
+    for w in words {
+        s.push_str(&format!(" {:04x}", w));
+    }
+    s
+}
+
+fn k03_run(dir: &std::path::Path, keys: &str, words: &[u16], timeout_ms: u64) -> String {
+    let mut src = String::from(".orig x3000\n");
+    for w in words {
+        src.push_str(&format!(".fill x{:04X}\n", w));
+    }
+    std::fs::write(dir.join("t.asm"), src).unwrap();
+    show(&spawn_tty_synced(dir, &["run", "t.asm", "--minimal"], keys, timeout_ms))
+}
+
+fn k03_parse(line: &str) -> Option<(String, Vec<u16>)> {
+    let f: Vec<&str> = line.split_whitespace().collect();
+    if f.len() < 5 || f[0] != "K03" {
+        return None;
+    }
+    let keys = String::from_utf8(crate::cap::unhex(f[3])?).ok()?;
+    let words: Option<Vec<u16>> = f[5..].iter().map(|w| u16::from_str_radix(w, 16).ok()).collect();
+    Some((keys, words?))
+}
+
+/// (keys, reads: false = GETC, true = IN).  The number of reads is the number of values the keys
+/// deliver, except in the last session (one read more than keys: the process must be left waiting).
+fn k03_corpus() -> Vec<(&'static str, Vec<bool>, u64)> {
+    vec![
+        ("a\rb", vec![false, false, false], 8000),                     // Enter → 10
+        ("\r\r", vec![true, false], 8000),                             // IN echoes the line feed
+        ("x\x7f\t\x01y", vec![false, false], 8000),                    // Backspace, Tab, Ctrl+A: no value
+        ("\n\x00é\n\x7fz", vec![false, true, false], 8000),           // Ctrl+J, Ctrl+Space ignored, also inside a 2-byte key
+        ("€\x7f\rQ", vec![true, false, false, false, false], 8000),    // 3-byte key, Backspace while 2 bytes are buffered
+        ("p\x03q", vec![false, false], 8000),                          // Ctrl+C: exit 0 after a line feed
+        ("\x03", vec![true], 8000),
+        ("k", vec![false, false], 1200),                               // second read waits for ever
+    ]
+}
+
+/// Re-run one `T03` / `K03` request line (also used by the C03 harness when it replays a file).
+pub fn replay_line(dir: &std::path::Path, line: &str) -> Option<String> {
+    if let Some((keys, words)) = k03_parse(line) {
+        return Some(k03_run(dir, &keys, &words, 8000));
+    }
+    parse(line).map(|(mi, keys, words)| run_one(dir, mi, &keys, &words))
+}
+
 pub fn run(o: &crate::Opts) {
     let mut sink = crate::Sink::new(o);
     let tmp = TmpDir::new(&format!("c03t-{}", o.shard));
     let dir = tmp.0.clone();
     if let Some(path) = &o.replay {
         for line in std::fs::read_to_string(path).unwrap().lines() {
-            match parse(line) {
-                Some((mi, keys, words)) => sink.put(line, &run_one(&dir, mi, &keys, &words)),
+            match replay_line(&dir, line) {
+                Some(obs) => sink.put(line, &obs),
                 None => sink.put(line, "bad-request"),
             }
         }
@@ -135,12 +315,19 @@ pub fn run(o: &crate::Opts) {
     let total = if o.thorough { 60 } else { 12 };
     let mut key_lens = [0u64; 5];
     let mut n = 0u64;
+    let mut control_sessions = 0u64;
     // corpus (shard 0): the witnesses of seeded change H1-m1
     if o.shard == 0 {
         for keys in ["éxy", "€y", "abcd", "😀z"] {
             let words = [0xF020u16, 0xF026, 0xF020, 0xF026, 0xF020, 0xF026, 0xF020, 0xF026, 0xF025];
             sink.put(&request(true, keys, &words), &run_one(&dir, true, keys, &words));
             n += 1;
+        }
+        for (keys, reads, timeout) in k03_corpus() {
+            let words = k03_words(&reads);
+            sink.put(&k03_request(keys, &words), &k03_run(&dir, keys, &words, timeout));
+            n += 1;
+            control_sessions += 1;
         }
     }
     for _ in 0..total {
@@ -165,8 +352,8 @@ pub fn run(o: &crate::Opts) {
     sink.finish(
         o,
         &format!(
-            "{{\"cases\":{},\"tty_runs\":{},\"keys_by_utf8_length\":[{},{},{},{},{}],\"samples\":[]}}",
-            n_cases, n, key_lens[0], key_lens[1], key_lens[2], key_lens[3], key_lens[4]
+            "{{\"cases\":{},\"tty_runs\":{},\"control_key_sessions\":{},\"keys_by_utf8_length\":[{},{},{},{},{}],\"samples\":[]}}",
+            n_cases, n, control_sessions, key_lens[0], key_lens[1], key_lens[2], key_lens[3], key_lens[4]
         ),
     );
 }
